@@ -11,7 +11,8 @@ From GQ Require Export Model.Protect Model.KeyPhase.
 Import ListNotations.
 Local Open Scope Z_scope.
 
-Definition tbuild := build Z Z toy_enc toy_mask.
+Definition tbuild_r := build_r Z Z toy_enc toy_mask.
+Definition tbuild := tbuild_r 0.
 Definition trecv {S} := @recv Z Z toy_dec toy_mask S.
 
 Definition cbytes (base n : Z) : list Z := slice content (Z.to_N base) (Z.to_N n).
@@ -37,10 +38,22 @@ Definition print_build (r : build_res) : list Z :=
 
 Definition bytes_of (r : build_res) : option (list Z) := match r with BOk p => Some p | _ => None end.
 
-Definition do_build (ty dl sl tl w pn la plen ps bufsz kid hid : Z) : build_res + unit :=
+(* the arguments of a toy build, kept so that op 11 can make the same packet with reserved bits set *)
+Definition bargs := (header * bool * Z * pnum * list Z * Z * Z * Z)%type.
+
+Definition do_build_args (ty dl sl tl w pn la plen ps bufsz kid hid : Z) : option bargs :=
   match mk_epn w pn la with
+  | None => None
+  | Some e => Some (mk_header ty dl sl tl ps, bit_set ps 1, pn, e, cbytes 1000 plen, bufsz, kid, hid)
+  end.
+Definition build_of (rsv : Z) (a : bargs) : build_res :=
+  let '(h, ph, pn, e, body, bufsz, kid, hid) := a in
+  tbuild_r (Z.land rsv (reserved_mask (is_short h))) h ph pn e body bufsz kid hid.
+
+Definition do_build (ty dl sl tl w pn la plen ps bufsz kid hid : Z) : build_res + unit :=
+  match do_build_args ty dl sl tl w pn la plen ps bufsz kid hid with
   | None => inr tt
-  | Some e => inl (tbuild (mk_header ty dl sl tl ps) (bit_set ps 1) pn e (cbytes 1000 plen) bufsz kid hid)
+  | Some a => inl (build_of 0 a)
   end.
 
 Definition hkind (h : header) : Z :=
@@ -72,11 +85,13 @@ Definition print_rx (r : rx) : list Z :=
 Definition print_rx_short (r : rx) : list Z :=
   match r with
   | RxAccept h total pn phase body => if hkind h =? 5 then 0 :: pn :: body else [1]
+  | RxConnErr => [3]
   | _ => [1]
   end.
 Definition print_rx_long (r : rx) : list Z :=
   match r with
   | RxAccept h total pn phase body => if hkind h =? 5 then [1] else 0 :: hkind h :: pn :: body
+  | RxConnErr => [3]
   | _ => [1]
   end.
 
@@ -87,13 +102,17 @@ Definition flip_bit (l : list Z) (i : Z) : list Z :=
                 | [] => []
                 end.
 
-Record pstate := mkP { p_last : option (list Z); p_dl : Z; p_a : kstate; p_b : kstate }.
-Definition p_init : pstate := mkP None 0 k_init k_init.
+Record pstate := mkP { p_last : option (list Z); p_dl : Z; p_a : kstate; p_b : kstate; p_args : option bargs }.
+Definition p_init : pstate := mkP None 0 k_init k_init None.
 
 Definition side_get (s : pstate) (side : Z) : kstate := if Z.odd side then p_b s else p_a s.
 Definition side_set (s : pstate) (side : Z) (k : kstate) : pstate :=
-  if Z.odd side then mkP (p_last s) (p_dl s) (p_a s) k else mkP (p_last s) (p_dl s) k (p_b s).
-Definition set_last (s : pstate) (l : option (list Z)) (dl : Z) : pstate := mkP l dl (p_a s) (p_b s).
+  if Z.odd side then mkP (p_last s) (p_dl s) (p_a s) k (p_args s) else mkP (p_last s) (p_dl s) k (p_b s) (p_args s).
+(* a new packet: only a successful toy build (op 0) leaves arguments for op 11 *)
+Definition set_last (s : pstate) (l : option (list Z)) (dl : Z) : pstate := mkP l dl (p_a s) (p_b s) None.
+Definition set_flipped (s : pstate) (l : list Z) : pstate := mkP (Some l) (p_dl s) (p_a s) (p_b s) (p_args s).
+Definition set_toy (s : pstate) (l : option (list Z)) (dl : Z) (a : option bargs) : pstate :=
+  mkP l dl (p_a s) (p_b s) (match l with Some _ => a | None => None end).
 
 Definition b2z' (b : bool) : Z := if b then 1 else 0.
 Definition print_local (k : kstate) : list Z := [b2z' (k_cur k); Z.of_N (k_loc k)].
@@ -112,15 +131,23 @@ Definition protect_step (s : pstate) (t : N) (a : list Z) : pstate * list Z :=
   match t, a with
   | 0%N, [ty; dl; sl; tl; w; pn; la; plen; ps; bufsz; kid; hid] =>
       match do_build ty dl sl tl w pn la plen ps bufsz kid hid with
-      | inl r => (set_last s (bytes_of r) dl, print_build r)
+      | inl r => (set_toy s (bytes_of r) dl (do_build_args ty dl sl tl w pn la plen ps bufsz kid hid), print_build r)
       | inr _ => (set_last s None dl, [4])
+      end
+  | 11%N, [r] =>
+      match p_args s with
+      | Some a => match build_of r a with
+                  | BOk p => (set_flipped s p, [zlen p])
+                  | _ => (s, [-1])
+                  end
+      | None => (s, [-1])
       end
   | 1%N, dlrx :: exp :: kid :: hid :: bs => (s, print_rx (recv1 Z Z toy_dec toy_mask kid hid dlrx exp bs))
   | 4%N, [dlrx; exp; kid; hid] =>
       (s, print_rx (recv1 Z Z toy_dec toy_mask kid hid dlrx exp (match p_last s with Some l => l | None => [] end)))
   | 2%N, [i] =>
       match p_last s with
-      | Some l => if (0 <=? i) && (i <? 8 * zlen l) then (set_last s (Some (flip_bit l i)) (p_dl s), [zlen l]) else (s, [-1])
+      | Some l => if (0 <=? i) && (i <? 8 * zlen l) then (set_flipped s (flip_bit l i), [zlen l]) else (s, [-1])
       | None => (s, [-1])
       end
   | 3%N, [side] => let k := k_update (side_get s side) in (side_set s side k, print_local k)
@@ -140,7 +167,7 @@ Definition protect_step (s : pstate) (t : N) (a : list Z) : pstate * list Z :=
       end
   | 8%N, [exp] =>
       let r := trecv 0 sel_b (p_b s) REAL_HID (p_dl s) exp (match p_last s with Some l => l | None => [] end) in
-      (mkP (p_last s) (p_dl s) (p_a s) (snd r), print_rx_short (fst r))
+      (mkP (p_last s) (p_dl s) (p_a s) (snd r) (p_args s), print_rx_short (fst r))
   | 9%N, [ty; dl; sl; tl; w; pn; la; plen; bufsz] =>
       match do_build (Z.min ty 2) dl sl tl w pn la plen 0 bufsz INITIAL_KID INITIAL_HID with
       | inl (BOk p) => (set_last s (Some p) dl, [0; zlen p])
